@@ -31,6 +31,12 @@ package keepclient
 //   O3 an error result is not kept in the cache: when no read has succeeded so far, a read that
 //      starts after a failed read returned (nothing else in flight) and also fails must have asked
 //      a server again
+//   O5 a buffer in which a block has been delivered to a reader is never written again (concurrent
+//      readers share the cache: a reader may still hold or be copying from that memory).  The fake
+//      sees the destination of every body Read, records its address range per response and keeps
+//      the memory referenced for the whole execution, so an overlap with a later response's
+//      destination means deliberate reuse; also, a slice returned by BlockCache.Get must still hold
+//      the block when the execution ends
 //   O4 every read returns: a panic in any goroutine (= death of the process) or a reader blocked for
 //      ever is a violation of "the read ends with an error"
 
@@ -49,6 +55,7 @@ import (
 	"strings"
 	"testing"
 	"time"
+	"unsafe"
 
 	"git.arvados.org/arvados.git/lib/verifshim/vrep"
 	"git.arvados.org/arvados.git/lib/verifshim/vsched"
@@ -69,17 +76,17 @@ type c03kind struct {
 }
 
 var c03kinds = []c03kind{
-	{"ok", 200, true, true, 0, true, true},              // body = block, Content-Length = size
-	{"flip", 200, false, true, 1, true, true},           // one flipped bit, Content-Length = size
-	{"short-cl", 200, false, true, 1, true, true},       // Content-Length = size, body ends one byte early (unexpected EOF)
+	{"ok", 200, true, true, 0, true, true},               // body = block, Content-Length = size
+	{"flip", 200, false, true, 1, true, true},            // one flipped bit, Content-Length = size
+	{"short-cl", 200, false, true, 1, true, true},        // Content-Length = size, body ends one byte early (unexpected EOF)
 	{"short-nocl", 200, false, true, 1, true, false},     // no Content-Length, body ends one byte early with a clean EOF
 	{"short-honest", 200, false, true, 1, true, false},   // one byte missing, Content-Length = size-1 (disagrees with the hint)
-	{"long-nocl", 200, false, true, 0, true, true},      // no Content-Length, one extra byte
+	{"long-nocl", 200, false, true, 0, true, true},       // no Content-Length, one extra byte
 	{"long-cl", 200, false, true, 0, true, false},        // one extra byte, Content-Length = size+1 (disagrees with the hint)
-	{"chunked-ok", 200, true, true, 0, true, true},      // correct body without Content-Length
+	{"chunked-ok", 200, true, true, 0, true, true},       // correct body without Content-Length
 	{"huge-cl", 200, false, true, 0, true, false},        // Content-Length = 64 MiB + 1, body = block, then the connection ends
 	{"404", 404, false, false, 0, true, false},           //
-	{"500", 500, false, false, 0, true, true},           //
+	{"500", 500, false, false, 0, true, true},            //
 	{"connerr", 0, false, false, 0, true, false},         //
 	{"other-block", 200, false, true, 1, false, false},   // a different block of the same size
 	{"flip-first", 200, false, true, 2, false, false},    // first bit flipped
@@ -114,6 +121,14 @@ type c03answer struct {
 	need        int // bytes that must be read from the body to have "consumed" the block
 	read        int
 	consumedSeq int // logical time at which the whole block had been read (0 = never)
+	writes      []c03write
+}
+
+// c03write: the body of a response was read into [ptr, ptr+n) at logical time seq.
+type c03write struct {
+	ptr uintptr
+	n   int
+	seq int
 }
 
 type c03block struct {
@@ -127,6 +142,9 @@ type c03fake struct {
 	answers []*c03answer
 	seq     int
 	badReq  []string
+	// destinations of body reads made by the code under test (cache and file scenarios): kept
+	// referenced until the execution ends so that the allocator cannot hand the memory out again
+	keep [][]byte
 }
 
 func (f *c03fake) tick() int {
@@ -164,6 +182,11 @@ func (b *c03body) Read(p []byte) (int, error) {
 	}
 	copy(p, b.data[b.pos:b.pos+n])
 	b.pos += n
+	if b.a != nil && b.f.cfg.Scen != "stream" {
+		// (stream: the destination belongs to the harness or to io.Copy, nothing is cached)
+		b.f.keep = append(b.f.keep, p)
+		b.a.writes = append(b.a.writes, c03write{ptr: uintptr(unsafe.Pointer(&p[0])), n: n, seq: b.f.tick()})
+	}
 	if b.a != nil {
 		b.a.read += n
 		if b.a.read >= b.a.need && b.a.consumedSeq == 0 {
@@ -301,11 +324,12 @@ type c03cfg struct {
 	Hint      bool   `json:"size_hint"`
 	Sig       bool   `json:"sig_hint"` // the locator also carries a +A permission hint
 	Size      int    `json:"block_size"`
-	Size2     int    `json:"block2_size"` // file: size of the second block
+	Size2     int    `json:"block2_size"` // file, cache/evict: size of the second block
+	Size3     int    `json:"block3_size"` // file: size of a third block (0 = two blocks); cache/evict: size of the third block
 	Mode      string `json:"mode"`        // stream: readall | readfull | copy | bytewise
 	Piece     int    `json:"piece"`       // body delivers at most this many bytes per Read (0 = all)
 	Mix       bool   `json:"mixed_hint"`  // cache: the second reader uses the other locator form
-	Readers   string `json:"readers"`     // cache: "par" = two concurrent readers; "seq" = one reader, then another; "par+1" = two concurrent readers, then a third
+	Readers   string `json:"readers"`     // cache: "par" = two concurrent readers; "seq" = one reader, then another; "par+1" = two concurrent readers, then a third; "evict" = one reader over three blocks (b0 b1 b2 b0 b1); "evict-par" = two readers over three blocks
 	MaxBlocks int    `json:"max_blocks"`  // file: BlockCache.MaxBlocks
 	Buf       int    `json:"buf"`         // file: Read buffer size
 	Free      bool   `json:"free_fault_cost"`
@@ -326,8 +350,14 @@ func (c c03cfg) String() string {
 		s += fmt.Sprintf(" hint=%v size%d %s", c.Hint, c.Size, c.Mode)
 	case "cache":
 		s += fmt.Sprintf(" %s hint=%v mix=%v size%d", c.Readers, c.Hint, c.Mix, c.Size)
+		if strings.HasPrefix(c.Readers, "evict") {
+			s += fmt.Sprintf("+%d+%d maxblocks%d", c.Size2, c.Size3, c.MaxBlocks)
+		}
 	case "file":
 		s += fmt.Sprintf(" sizes%d+%d buf%d maxblocks%d", c.Size, c.Size2, c.Buf, c.MaxBlocks)
+		if c.Size3 > 0 {
+			s += fmt.Sprintf(" third%d", c.Size3)
+		}
 	}
 	if c.Sig {
 		s += " sig"
@@ -351,8 +381,9 @@ type c03read struct {
 	n       int
 	data    []byte
 	err     error
-	whole   bool // the operation claims to deliver the whole block (Get, ReadAll)
-	eof     bool // file: Read returned io.EOF (success, end of file)
+	whole   bool   // the operation claims to deliver the whole block (Get, ReadAll)
+	eof     bool   // file: Read returned io.EOF (success, end of file)
+	held    []byte // the slice BlockCache.Get returned (not a copy)
 	filepos int64
 }
 
@@ -371,6 +402,9 @@ func c03blockData(i, size int) []byte {
 	if i == 1 {
 		src = "QRSTUVWXYZ"
 	}
+	if i == 2 {
+		src = "klmnopqrst"
+	}
 	return []byte(src[:size])
 }
 
@@ -379,6 +413,12 @@ func c03newState(cfg c03cfg) (*c03state, *KeepClient) {
 	sizes := []int{cfg.Size}
 	if cfg.Scen == "file" {
 		sizes = append(sizes, cfg.Size2)
+		if cfg.Size3 > 0 {
+			sizes = append(sizes, cfg.Size3)
+		}
+	}
+	if cfg.Scen == "cache" && strings.HasPrefix(cfg.Readers, "evict") {
+		sizes = append(sizes, cfg.Size2, cfg.Size3)
 	}
 	for i, sz := range sizes {
 		d := c03blockData(i, sz)
@@ -492,7 +532,51 @@ func c03cacheBody(cfg c03cfg, st *c03state, kc *KeepClient) {
 		if err != nil {
 			buf = nil
 		}
+		rd.held = buf
 		st.finish(rd, buf, err)
+	}
+	// eviction scenarios: three distinct blocks through a cache of MaxBlocks 1 or 2
+	readAt := func(who string, blk int) {
+		rd := st.begin(fmt.Sprintf("%s:ReadAt(b%d)", who, blk), blk, 0)
+		p := make([]byte, 8)
+		n, err := kc.ReadAt(st.locator(blk, cfg.Hint), p, 0)
+		st.finish(rd, p[:n], err)
+	}
+	get := func(who string, blk int) {
+		rd := st.begin(fmt.Sprintf("%s:cache.Get(b%d)", who, blk), blk, 0)
+		rd.whole = true
+		buf, err := kc.BlockCache.Get(kc, st.locator(blk, cfg.Hint))
+		if err != nil {
+			buf = nil
+		}
+		rd.held = buf
+		st.finish(rd, buf, err)
+	}
+	switch cfg.Readers {
+	case "evict":
+		readAt("r", 0)
+		get("r", 1)
+		readAt("r", 2)
+		readAt("r", 0)
+		get("r", 1)
+		return
+	case "evict-par":
+		var wg vsched.WaitGroup
+		wg.Add(2)
+		vsched.GoNamed("readerA", func() {
+			defer wg.Done()
+			get("A", 0)
+			readAt("A", 1)
+			readAt("A", 2)
+		})
+		vsched.GoNamed("readerB", func() {
+			defer wg.Done()
+			readAt("B", 2)
+			get("B", 1)
+			readAt("B", 0)
+		})
+		wg.Wait()
+		return
 	}
 	switch cfg.Readers {
 	case "seq":
@@ -526,31 +610,42 @@ func c03cacheBody(cfg c03cfg, st *c03state, kc *KeepClient) {
 }
 
 func c03fileBody(cfg c03cfg, st *c03state, kc *KeepClient) {
-	b0, b1 := st.fake.blocks[0], st.fake.blocks[1]
-	// the file starts one byte into the first block and ends one byte before the end of the second
-	// (blocks of one byte are used whole)
+	blocks := st.fake.blocks
+	b0, last := blocks[0], blocks[len(blocks)-1]
+	// the file starts one byte into the first block and ends one byte before the end of the last
+	// (blocks of one byte are used whole); a middle block is used whole
 	skip, tail := 0, 0
 	if len(b0.data) > 1 {
 		skip = 1
 	}
-	if len(b1.data) > 1 {
+	if len(last.data) > 1 {
 		tail = 1
 	}
-	st.file = append(append([]byte(nil), b0.data[skip:]...), b1.data[:len(b1.data)-tail]...)
-	mt := fmt.Sprintf(". %s %s %d:%d:f\n", st.locator(0, true), st.locator(1, true), skip, len(st.file))
+	st.file = append([]byte(nil), b0.data[skip:]...)
+	segEnd := []int{len(st.file)} // file offset at which each block's segment ends
+	locs := st.locator(0, true)
+	for i := 1; i < len(blocks); i++ {
+		d := blocks[i].data
+		if i == len(blocks)-1 {
+			d = d[:len(d)-tail]
+		}
+		st.file = append(st.file, d...)
+		segEnd = append(segEnd, len(st.file))
+		locs += " " + st.locator(i, true)
+	}
+	mt := fmt.Sprintf(". %s %d:%d:f\n", locs, skip, len(st.file))
 	f, err := kc.CollectionFileReader(map[string]interface{}{"manifest_text": mt}, "f")
 	if err != nil {
 		panic("c03: CollectionFileReader: " + err.Error())
 	}
 	defer f.Close()
-	seg0 := len(b0.data) - skip
 	p := make([]byte, cfg.Buf)
 	failures := 0
 	for i := 0; i < 2*len(st.file)+6; i++ {
 		pos, _ := f.Seek(0, io.SeekCurrent)
 		blk := 0
-		if pos >= int64(seg0) {
-			blk = 1
+		for blk < len(segEnd)-1 && pos >= int64(segEnd[blk]) {
+			blk++
 		}
 		rd := st.begin(fmt.Sprintf("Read@%d", pos), blk, int(pos))
 		rd.filepos = pos
@@ -731,6 +826,44 @@ func c03run(r *vrep.Report, cfg c03cfg) vsched.Stats {
 				if quiescent && prevFailed && f.requestsBetween(rd.start, rd.end) == 0 {
 					bad("error-served-from-cache:"+cfg.Scen, fmt.Sprintf("%s failed without asking any server although the previous failure had already been returned", rd.who))
 				}
+			}
+		}
+		// O5: memory from which a block has been delivered is never written again
+		for _, a := range f.answers {
+			if !a.kind.good || a.consumedSeq == 0 || len(a.writes) == 0 {
+				continue
+			}
+			delivered := 0 // logical time of the first successful read served after this response was complete
+			for _, rd := range st.reads {
+				if rd.ok() && rd.block == a.block && rd.n > 0 && rd.end > a.consumedSeq && (delivered == 0 || rd.end < delivered) {
+					delivered = rd.end
+				}
+			}
+			if delivered == 0 {
+				continue
+			}
+		later:
+			for _, a2 := range f.answers {
+				if a2.serial <= a.serial {
+					continue
+				}
+				for _, w2 := range a2.writes {
+					if w2.seq < delivered {
+						continue
+					}
+					for _, w1 := range a.writes {
+						if w2.ptr < w1.ptr+uintptr(w1.n) && w1.ptr < w2.ptr+uintptr(w2.n) {
+							bad("delivered-buffer-rewritten:"+cfg.Scen, fmt.Sprintf("the body of response #%d (block %d, %s) was read into memory that holds block %d from response #%d, which had already been delivered to a reader (cache buffer reused while readers may still hold it)",
+								a2.serial, a2.block, a2.kind.name, a.block, a.serial))
+							break later
+						}
+					}
+				}
+			}
+		}
+		for _, rd := range st.reads {
+			if rd.ok() && rd.held != nil && bytes.Equal(rd.data, f.blocks[rd.block].data) && !bytes.Equal(rd.held, rd.data) {
+				bad("returned-slice-changed-later:"+cfg.Scen, fmt.Sprintf("the slice %s returned held %q then, %q when the execution ended", rd.who, rd.data, rd.held))
 			}
 		}
 		var kinds []string
